@@ -855,8 +855,7 @@ class Interp:
                 cond = neg_cond(cond)
             ok = st.F.prove_cond(cond)
             st.oblig.append({"kind": "assert:" + t["msg_kind"], "fn": fr.body["path"], "ok": ok, "detail": T.cshow(cond) if cond[0] in ("ge", "lt", "eq", "ne") else repr(cond), "span": t["span"]})
-            if not ok:
-                st.F.add_cond(cond)
+            st.F.add_cond(cond)     # proved or assumed: keep it as an explicit row for the product lemmas
             return [("goto", st, t["target"])]
         if k == "switch":
             d = self.eval_operand(st, fr, t["discr"])
